@@ -217,42 +217,56 @@ def verify_target(db, reg, key, timeout_ms=20000, want_smt2=False, findings=(), 
                 continue
             if chk == z3.sat and len(pre_models) < 1:
                 pre_models.append(concretize_inputs(s.model(), env, st))
-            snapshot = st.fork()
+            # optional case split of the pre-state (each case is verified separately; the cases are exhaustive by
+            # construction: cond / not cond)
+            starts = [st]
+            for sp_expr in c.get('split', []):
+                new_starts = []
+                for s0 in starts:
+                    spx = s0.fork()
+                    spx.spec = True
+                    cnd = ex.spec_bool(spx, sp_expr)
+                    for s1, _b in ex.branch(s0, cnd):
+                        new_starts.append(s1)
+                starts = new_starts
             ex.vcs = []
-            st.yielded = None
-            if fi.is_generator:
-                rty = parse_type(c.get('returns', 'list[opaque]'))
-                proto = ex.fresh(st, rty, 'y_empty')
-                st.yielded = VSeq(length=z3.IntVal(0), elem=proto.elem, kind='list')
-            outs = ex.exec_block(st, fi.node.body)
-            for s2, (kind, val) in outs:
-                if kind == RAISE:
-                    handle_raise(ex, c, qual, s2, val, env, snapshot)
-                    exits.append('raise ' + val.cls)
-                    continue
-                if kind == NEXT:
-                    val = NONE
+            for st in starts:
+                n_before = len(ex.vcs)
+                snapshot = st.fork()
+                st.yielded = None
                 if fi.is_generator:
-                    val = s2.yielded
-                normal_exits += 1
-                exits.append('return')
-                post = s2.fork()
-                post.spec = True
-                post.env = dict(env)
-                post.env['result'] = val
-                post.old = snapshot
-                for i, e in enumerate(c['ensures']):
-                    g = ex.spec_bool(post, e)
-                    ex.oblige(s2, g, '%s.ensures#%d' % (qual, i), 'ensures', key, {'clause': clause_text(e)})
-                for tr in c.get('trace', []):
-                    for oid, g, text in tr(ex, s2, post, val):
-                        ex.oblige(s2, g, '%s.trace.%s' % (qual, oid), 'trace', key, {'clause': text})
-                if c.get('must_fail'):
-                    g = ex.spec_bool(post, c['must_fail'])
-                    ex.oblige(s2, g, '%s.must_fail' % qual, 'must_fail', key, {'clause': c['must_fail']})
-            for vc in ex.vcs:
-                vc.inputs = env
-                vc.snapshot = snapshot
+                    rty = parse_type(c.get('returns', 'list[opaque]'))
+                    proto = ex.fresh(st, rty, 'y_empty')
+                    st.yielded = VSeq(length=z3.IntVal(0), elem=proto.elem, kind='list')
+                outs = ex.exec_block(st, fi.node.body)
+                for s2, (kind, val) in outs:
+                    if kind == RAISE:
+                        handle_raise(ex, c, qual, s2, val, env, snapshot)
+                        exits.append('raise ' + val.cls)
+                        continue
+                    if kind == NEXT:
+                        val = NONE
+                    if fi.is_generator:
+                        val = s2.yielded
+                    normal_exits += 1
+                    exits.append('return')
+                    post = s2.fork()
+                    post.spec = True
+                    post.env = dict(env)
+                    post.env['result'] = val
+                    post.old = snapshot
+                    for i, e in enumerate(c['ensures']):
+                        g = ex.spec_bool(post, e)
+                        ex.oblige(s2, g, '%s.ensures#%d' % (qual, i), 'ensures', key, {'clause': clause_text(e)})
+                    for tr in c.get('trace', []):
+                        for oid, g, text in tr(ex, s2, post, val):
+                            ex.oblige(s2, g, '%s.trace.%s' % (qual, oid), 'trace', key, {'clause': text})
+                    if c.get('must_fail'):
+                        g = ex.spec_bool(post, c['must_fail'])
+                        ex.oblige(s2, g, '%s.must_fail' % qual, 'must_fail', key, {'clause': c['must_fail']})
+                for vc in ex.vcs[n_before:]:
+                    vc.inputs = env
+                    vc.snapshot = snapshot
             all_vcs.extend(ex.vcs)
         res.info['paths'] = len(exits)
         res.info['normal_exits'] = normal_exits
@@ -278,7 +292,7 @@ def verify_target(db, reg, key, timeout_ms=20000, want_smt2=False, findings=(), 
         for vc in all_vcs:
             o = obl.setdefault(vc.oid, new_ob(vc.kind, vc.info.get('clause', '')))
             o['paths'] += 1
-            if o['verdict'] == 'sat' and vc.kind != 'must_fail':
+            if o['verdict'] in ('sat', 'unknown') and vc.kind != 'must_fail':
                 continue
             if vc.kind == 'must_fail':
                 if o.get('refuted_once'):
@@ -324,7 +338,7 @@ def verify_target(db, reg, key, timeout_ms=20000, want_smt2=False, findings=(), 
                         pass
                 if not confirmed:
                     # a quantifier-free instance set is satisfiable: a proof is unlikely; bounded second look
-                    r2 = smt.solve_full(smt.full_formulas(pc, vc.goal), min(timeout_ms, 15000 if tier_quick(timeout_ms) else 120000))
+                    r2 = smt.solve_full(smt.full_formulas(pc, vc.goal), min(timeout_ms, 20000 if tier_quick(timeout_ms) else 120000))
                     verdict, model, backend, why = r2['verdict'], r2['model'], r2['backend'], r2['why']
                     ms += r2['ms']
                     if verdict == 'sat' and model is None:
@@ -360,6 +374,11 @@ def verify_target(db, reg, key, timeout_ms=20000, want_smt2=False, findings=(), 
                     o['verdict'] = 'unknown'
                     o['why'] = str(why)
                     o['where'] = vc.where
+                    if os.environ.get('PYVC_DUMP'):
+                        with open(os.path.join(os.environ['PYVC_DUMP'], vc.oid.replace('/', '_') + '.smt2'), 'w') as fh:
+                            sd = z3.Solver()
+                            sd.add(*smt.full_formulas(pc, vc.goal))
+                            fh.write(sd.to_smt2())
         for oid, o in obl.items():
             if o['kind'] == 'must_fail':
                 o['verdict'] = 'unsat' if o.get('refuted_once') else 'vacuous'
